@@ -27,6 +27,8 @@ def cases(tier):
   for a in g1:
     for b in g1:
       yield {'subs': [a, b]}
+      # signature table listed in the opposite order to the subgraphs
+      yield {'subs': [a, b], 'sigrev': True}
   # a two-operator graph next to a one-operator graph, both orders
   pick = g2
   for a in pick:
@@ -36,6 +38,9 @@ def cases(tier):
   # equal structure under different names (same tensor indices in both)
   for a in g2:
     yield {'subs': [a, a]}
+  for a in g2[::3]:
+    for b in g1[:3]:
+      yield {'subs': [a, b], 'sigrev': True}
   # sharing one constant buffer across subgraphs
   for t, v in (('FULLY_CONNECTED', 'bias'), ('CONV_2D', '1x1'),
                ('EMBEDDING_LOOKUP', 'w4')):
@@ -146,6 +151,11 @@ def compare(pm_a, ia, pm_b, ib):
       d.append(f'tensor {k} {x.name} constant bytes')
   if A.inputs != B.inputs or A.outputs != B.outputs:
     d.append(f'subgraph I/O {A.inputs}->{A.outputs} vs {B.inputs}->{B.outputs}')
+  # the signature bound to the subgraph: same key, same name -> tensor wiring
+  sa = [(g['key'], g['inputs'], g['outputs']) for g in pm_a.sigs if g['sub'] == ia]
+  sb = [(g['key'], g['inputs'], g['outputs']) for g in pm_b.sigs if g['sub'] == ib]
+  if sa != sb:
+    d.append(f'signature {sa} vs {sb}')
   return d
 
 
@@ -156,6 +166,8 @@ def run_case(case, note, skip):
   cnt = res['counts']
   pool = env.seed() % 4
   multi_ir = make_ir(case['subs'], pool)
+  if case.get('sigrev'):
+    multi_ir['sigdefs'] = 'rev'
   multi = irm.build(multi_ir)
   if multi is None:
     cnt['ill_shaped'] = 1
